@@ -121,7 +121,7 @@ def parse_log(text, res, only_tag=None, expected_panics=False):
                 unsat.append((name, desc, loc, status))
             continue
         if "unwinding assertion" in desc or ".unwind." in name:
-            if status == "FAILURE":
+            if status != "SUCCESS":
                 unwind_fail = True
             continue
         if only_tag is not None and only_tag in desc:
@@ -136,6 +136,10 @@ def parse_log(text, res, only_tag=None, expected_panics=False):
             undetermined = True
     res.covers = (cov_sat, cov_tot)
     res.unsat_covers = unsat
+    if "ran out of memory" in text or "std::bad_alloc" in text:
+        res.verdict = "OOM"
+        res.note = "solver ran out of memory (never a pass)"
+        return
     ok = "VERIFICATION:- SUCCESSFUL" in text
     bad = "VERIFICATION:- FAILED" in text
     if not ok and not bad:
